@@ -26,10 +26,12 @@ LEVEL = "proof"
 PID = "C01"
 
 
-def build(sizes=None):
-    """returns the list of obligations; sizes=None: unbounded symbolic arrays, (np, nn): ground arrays"""
+def build_cm(sizes=None, pid="C01"):
+    """cell-by-cell contract of Scores.cm against the documented decision rule.  pid != 'C01': the same obligations re-discharged inside
+    another property's check (C02, C06 state their clauses on 'the metric as computed by the same object', i.e. on top of this contract)"""
     obs = []
     npos, nneg = sizes if sizes else (None, None)
+    pre = "C01/cm/" if pid == "C01" else f"{pid}/callee-contract:Scores.cm/"
     for sc, ec in B.CONFIGS:
         for shape in ("X", "scalar"):
             ex = new_exec()
@@ -51,8 +53,8 @@ def build(sizes=None):
             def ob(name, goal, p, kind="post"):
                 o = ex.obligs.__class__  # noqa
                 from vf.engine import Oblig
-                obs_here.append(Oblig(f"C01/cm/{name}{tag}", p.pc, goal, kind, ("C01",),
-                                      {"build": ("c01", sizes), "case": lambda m, me=me, t=t, sc=sc, ec=ec: _case(m, me, t, sc, ec)}))
+                obs_here.append(Oblig(f"{pre}{name}{tag}", p.pc, goal, kind, (pid,),
+                                      {"build": ("c01", sizes), "case": lambda m, me=me, t=t, sc=sc, ec=ec: _case(m, me, t, sc, ec)} if pid == "C01" else {}))
             if len(outs) != 1 or not live:
                 ob("single-non-raising-path", BoolVal(False), path)
             for o in live:
@@ -85,15 +87,21 @@ def build(sizes=None):
                 ob("rowsum-neg", fp + tn == nnz + en, o.path)
                 ob("cells-nonneg", And(tp >= 0, fn >= 0, fp >= 0, tn >= 0), o.path)
             for so in ex.obligs:
-                so.id = f"C01/cm/safety:{so.id}{tag}"
-                so.props = ("C01",)
-                so.meta.update({"build": ("c01", sizes)})
+                so.id = f"{pre}safety:{so.id}{tag}"
+                so.props = (pid,)
+                so.meta.update({"build": ("c01", sizes)} if pid == "C01" else {})
                 obs_here.append(so)
             # frame: cm stores nothing into self / into arrays it did not create
             bad = [s for s in ex.stores if s[1] != "fresh" and not s[1].startswith("view:fresh")]
             from vf.engine import Oblig
-            obs_here.append(Oblig(f"C01/cm/frame-no-store-to-self-or-args{tag}", [], BoolVal(not bad), "frame", ("C01",), {"stores": bad}))
+            obs_here.append(Oblig(f"{pre}frame-no-store-to-self-or-args{tag}", [], BoolVal(not bad), "frame", (pid,), {"stores": bad}))
             obs += obs_here
+    return obs
+
+
+def build(sizes=None):
+    """returns the list of obligations; sizes=None: unbounded symbolic arrays, (np, nn): ground arrays"""
+    obs = build_cm(sizes)
     obs += build_init(sizes)
     obs += build_pointwise(sizes)
     if sizes is None:
